@@ -333,6 +333,35 @@ def _deep(_):
     r = roundtrip(t, 'act')
     return r if r[0] == 'ok' else ('bad', r[1], None)
 
+# ---- (7) instances of C06_paragraph_round_trip, run on the implementation ----
+def _legal(c):
+    o = ord(c)
+    return 32 <= o <= 0xD7FF or 0xE000 <= o <= 0xFFFD or o >= 0x10000
+
+def para_strings(rng, n):
+    """texts that meet the premises of the theorem: no tab / line break, no blank at either end, XML-legal characters"""
+    atoms = [a for a in ATOMS + gen.ALL_KEYWORDS + ['b', 'x y', 'SECTION 2.', 'P.cls', 'P{a b}', '{{*', '{{FOOTNOTE 1}}', '{{IMG a b}}', '{{>u t}}', '}}', '**b**', 'BODY', 'TABLE', 'BULLETS',
+                                                    '\u00a0', '\u200b', '\u2028', '\x85', '\x1c']
+             if not any(c in a for c in '\t\n\r')]
+    out = ['PART 1 - **x** {{^y}} \\ //z__ P{a b} {{*r}}']
+    while len(out) < n:
+        s = (' ' if rng.random() < 0.5 else '').join(rng.choice(atoms) for _ in range(rng.randint(1, 7)))
+        if s and s == s.strip() and all(_legal(c) for c in s):
+            out.append(s)
+    return out
+
+def _para(args):
+    uri, prefix, s = args
+    eid = (prefix + '__' if prefix else '') + 'p_1'
+    x = ['E', 'p', [['eId', eid]], [['T', s]]]
+    text = impl.unparse_sx(x)
+    if not isinstance(text, str):
+        return ('bad', 'unparse of a paragraph raised %r' % (text,), None)
+    r = impl.e2e_sx((uri, 'hier_block_element', prefix, text))
+    if r != x:
+        return ('bad', 'unparse then parse of <p eId=%r>%r</p> gave %r - C06_paragraph_round_trip predicts the same element' % (eid, s, r), text)
+    return ('ok', None, text)
+
 WITNESS_ATTR = [('p-title', ' a'), ('p-title', 'a\tb'), ('abbr-title', 'a ')]
 
 # ---- xslstr stage ----
@@ -401,7 +430,12 @@ def _unp_trees(seed):
 def correspondence(ctx):
     stage_xslstr(ctx, xsl_cases(ctx, ctx.n(3000, 60000)))
     seeds = [ctx.rng.randrange(1 << 30) for _ in range(ctx.n(1200, 40000))]
-    stages.stage_unp(ctx, [t for l in impl.pmap(_unp_trees, seeds, chunk=16) for t in l])
+    # the two halves of C06_paragraph_round_trip, each against the model: the paragraphs through unp, their written texts through e2e
+    ps = [(ctx.rng.choice(stages.URIS), ctx.rng.choice(stages.PREFIXES), t) for t in para_strings(ctx.rng, ctx.n(120, 3000))]
+    ptrees = [['E', 'p', [['eId', (pf + '__' if pf else '') + 'p_1']], [['T', t]]] for _, pf, t in ps]
+    stages.stage_unp(ctx, [t for l in impl.pmap(_unp_trees, seeds, chunk=16) for t in l] + ptrees)
+    texts = impl.pmap(impl.unparse_sx, ptrees, chunk=32)
+    stages.stage_e2e(ctx, [(u, 'hier_block_element', pf, tx) for (u, pf, _), tx in zip(ps, texts) if isinstance(tx, str)])
 
 def search(ctx, budget):
     import random
@@ -464,6 +498,12 @@ def search(ctx, budget):
             ctx.failures.append(({'stage': 'footnote', 'position': j[0], 'wrapper': j[1], 'notes': j[2], 'unparsed': r[2]}, r[1]))
         else:
             ctx.nontrivial(('fn',) + j)
+    # (7)
+    pj = [(ctx.rng.choice(stages.URIS), ctx.rng.choice(stages.PREFIXES), t) for t in para_strings(ctx.rng, ctx.n(150, 4000) * budget)]
+    for j, r in zip(pj, impl.pmap(_para, pj, chunk=16)):
+        ctx.evaluations += 1; ctx.count('paragraph_theorem_' + r[0])
+        if r[0] == 'bad':
+            ctx.failures.append(({'stage': 'paragraph', 'uri': j[0], 'prefix': j[1], 'string': j[2], 'unparsed': r[2]}, r[1]))
     # witnesses of the listed findings
     for j, r in zip(WITNESS_ATTR, impl.pmap(_attr, WITNESS_ATTR, chunk=1)):
         ctx.evaluations += 1; ctx.count('witness_' + r[0])
@@ -508,6 +548,8 @@ def replay(obj):
         r = _attr((case['position'], case['value'])); print(r[:2]); return 1 if r[0] == 'bad' else 0
     if st == 'footnote':
         r = _fn((case['position'], case['wrapper'], case['notes'])); print(r[:2]); return 1 if r[0] == 'bad' else 0
+    if st == 'paragraph':
+        r = _para((case['uri'], case['prefix'], case['string'])); print(r[:2]); return 1 if r[0] == 'bad' else 0
     if st == 'deep':
         r = _deep(0); print(r[:2]); return 1 if r[0] == 'bad' else 0
     return 0 if replay_xslstr(case) else 1
@@ -525,10 +567,10 @@ LEVEL_TEXT = ('Partial. Proved on the tables regenerated from akn_text.xsl and a
               '(C06_written_text_parses_as_text); at block level, the line written for a paragraph is dispatched by hier_block_element to rule line - all '
               'keyword blocks fail on it, by a computed FIRST analysis of the regenerated grammar against the stylesheet\'s list '
               '(C06_escaped_first_text_is_a_line); composed: the first text of a paragraph as written is accepted by hier_block_element through rule line and '
-              'becomes a p with text children only, spelling the text (C06_written_first_text_is_paragraph). The string '
+              'becomes a p with text children only, spelling the text (C06_written_first_text_is_paragraph); and the round trip of a paragraph through the WHOLE pipeline model, both directions: for every known FRBR URI, every eId prefix and every text s without tab or line break, without blanks at its ends and of XML-legal characters, convert(unparse(<p eId=prefix__p_1>s</p>)) is that very element - stylesheet model, pre_parse, grammar, to_dict, XML builder, footnote resolution, normalisation, eId generation (C06_paragraph_round_trip; its instances are run on the implementation on every run). The string '
               'templates and all element templates are modelled in Gallina (Model/Unparse.v, Model/UnparseDoc.v) and tied to libxslt running the stylesheet by the xslstr and unp stages. That escaped text re-parses as the same '
               'text is decided by the oracles on the implementation: exhaustive strings of up to 3 atoms of the adversarial alphabet x 22 text positions, '
-              'every keyword x 7 block positions x 6 continuations, random poisoning of generated documents, elements without syntax (no text dropped), '
+              'instances of the paragraph theorem, every keyword x 7 block positions x 6 continuations, random poisoning of generated documents, elements without syntax (no text dropped), '
               'attribute values, unparse leaves its argument unmodified and does not raise.')
 LEVEL_NOTE = 'Trusted: Coq kernel (vm_compute table checks); translator of the stylesheet tables; hand model of the string templates tied by sampling; libxslt and element templates exercised, not modelled.'
 TECHNIQUE = 'Rocq proof (escape tables cover the generated grammar; escape-inlines lossless and marker-free for all strings, by a unit-level invariant through the six replace passes; symbolic execution of the PEG interpreter on the generated grammar with static first-character / FIRST-literal analyses proved sound) + Gallina model of the stylesheet string templates run differentially + exhaustive small-string x position oracle'
